@@ -36,7 +36,7 @@ func (c *classAlloc) next(t int, ctx bool) (int, bool) {
 }
 
 // StressHistory builds a world over 2-3 types that share a shard, pre-registers a few handlers,
-// plans 2-4 goroutines x 3-8 registry / publish operations (unique handler class per registration)
+// plans 2-4 goroutines x 3-8 registry / publish operations (unique handler class per registration, except for one twin pair in every third world)
 // and runs them from a barrier with noise at every yield point. record=false is the recorder-free
 // race-hunting variant (no stamps, no harness synchronisation inside callbacks).
 func StressHistory(rng *rand.Rand, all []evt.Driver, record bool) (w *World, plans [][]PlanOp, nT int) {
@@ -60,6 +60,18 @@ func StressHistory(rng *rand.Rand, all []evt.Driver, record bool) (w *World, pla
 		if r := mkReg(rng.IntN(nT)); r != nil {
 			w.Subscribe(90, r)
 			owned[k%G] = append(owned[k%G], r)
+		}
+	}
+	// every third world: one handler function registered twice (second registration with other
+	// options); only the first registration is ever unsubscribed, which must leave the second alone
+	if rng.IntN(3) == 0 {
+		if a := mkReg(rng.IntN(nT)); a != nil {
+			a.Once = false
+			b := &Reg{T: a.T, Class: a.Class, Ctx: a.Ctx, Async: rng.IntN(4) == 0, Filter: rng.IntN(4) == 0, Seq: rng.IntN(4) == 0}
+			w.Subscribe(90, a)
+			w.Subscribe(90, b)
+			g := rng.IntN(G)
+			owned[g] = append(owned[g], a)
 		}
 	}
 	plans = make([][]PlanOp, G)
